@@ -81,11 +81,12 @@ func init() {
 			cfg := baseCfg(rng, "C05")
 			cfg.Thresholds = []int{1, 2, 2, 3}
 			cfg.Differ = rng.Chance(60)
+			cfg.EmptyLastPct = 20
 			cfg.RuleStyle = rng.Pick3(1, 1, 0)
 			cfg.PopKinds = []string{"foreign", "unsigned", "tampered", "forged-keyid"}
 			cfg.ExtraPerStep = rng.Intn(2)
 			return cfg
-		}, "1-3 steps with thresholds 1-3; counted links agree or one of them differs in one product path / digest / presence; uncounted links (foreign, unsigned, tampered, forged id) carry other artifacts; rules strict (MATCH + DISALLOW *), lenient or random; compared: verdict and the summary's name, materials and products. Class = (differ?, kinds, verdict).")
+		}, "1-3 steps with thresholds 1-3; counted links agree or one of them differs in one product path / digest / presence / hash algorithm set; the last step of a multi-step layout reports no products in a fifth of the cases; uncounted links (foreign, unsigned, tampered, forged id) carry other artifacts; rules strict (MATCH + DISALLOW *), lenient or random; compared: verdict and the summary's name, materials and products. Class = (differ?, kinds, verdict).")
 	}
 	props["C08"] = func(r *Runner, tier string, rng *Rng) {
 		runChains(r, rng, tierN(tier, 220, 5000), func(i int) *ChainCfg {
@@ -96,13 +97,14 @@ func init() {
 			cfg.Thresholds = []int{1, 1, 2}
 			cfg.SurplusPct = 40
 			cfg.ShortPct = 20
+			cfg.SubExpiredPct = 15
 			if rng.Chance(40) {
 				cfg.PopKinds = []string{"tampered", "foreign", "forged-keyid", "garbage", "corrupt-sig"}
 				cfg.ExtraPerStep = 1
 			}
 			cfg.Differ = rng.Chance(15)
 			return cfg
-		}, "two- and three-level nestings: the evidence of one functionary per step may be a sublayout with its own link directory; defects (tampered/foreign/forged/garbage/corrupt links, one link too few, disagreeing links, rule violations) land at any level, also in a sublayout of a step that has more honest evidence than its threshold requires; parent rules strict or lenient; compared: verdict and summary. Class = (depth features, verdict).")
+		}, "two- and three-level nestings: the evidence of one functionary per step may be a sublayout with its own link directory; defects (tampered/foreign/forged/garbage/corrupt links, one link too few, disagreeing links, rule violations) land at any level (incl. an expired or undated sublayout under a valid root), also in a sublayout of a step that has more honest evidence than its threshold requires; parent rules strict or lenient; compared: verdict and summary. Class = (depth features, verdict).")
 	}
 	props["C09"] = func(r *Runner, tier string, rng *Rng) {
 		kinds := []string{"noop", "create", "modify", "delete", "exit", "create-exit", "signal", "missing", "empty", "noop", "create", "noop"}
@@ -114,6 +116,7 @@ func init() {
 				cfg.Inspections = append(cfg.Inspections, kinds[rng.Intn(len(kinds))])
 			}
 			cfg.DirEdit = rng.Pick([]string{"", "", "add", "remove", "modify"})
+			cfg.AltAlgPct = 25
 			if cfg.Entry == "withdir" {
 				cfg.RunDirState = rng.Pick([]string{"ok", "ok", "ok", "ok", "ok", "missing", "empty"})
 			}
@@ -123,7 +126,7 @@ func init() {
 				cfg.Thresholds = []int{1, 2}
 			}
 			return cfg
-		}, "0-3 inspections from a catalogue of real shell commands (no-op, create/modify/delete a file, exit 1..255, effect then exit, killed by signal, missing executable, empty argv), final product directory equal to the last step's products or with one file added / removed / modified, with and without an explicit run directory (incl. missing / empty); inspection rules match the directory against the last step's products; compared: verdict, summary, the list of commands that actually ran (marker file), the files present afterwards. Class = (inspection kinds, directory edit, run-dir state, verdict).")
+		}, "0-3 inspections from a catalogue of real shell commands (no-op, create/modify/delete a file, exit 1..255, effect then exit, killed by signal, missing executable, empty argv), final product directory equal to the last step's products or with one file added / removed / modified, the last step's products recorded under sha512 only in 25% of the cases (nothing comparable = nothing equal), with and without an explicit run directory (incl. missing / empty); inspection rules match the directory against the last step's products; compared: verdict, summary, the list of commands that actually ran (marker file), the files present afterwards. Class = (inspection kinds, directory edit, run-dir state, verdict).")
 	}
 }
 
